@@ -456,7 +456,9 @@ func expandState(sc *simScenario, req *expandReq) *expandResp {
 	}
 	evs := s.enabled()
 	if sc.Final != "" && (sc.Final != "adversary" || s.w.led.newsAt == s.w.clock) {
+		simExpectHash = resp.Hash
 		resp.Final = finalCheck(sc, req.Hist)
+		simExpectHash = ""
 	}
 	parentHash := resp.Hash
 	type crashPt struct {
@@ -518,7 +520,9 @@ func expandState(sc *simScenario, req *expandReq) *expandResp {
 					}
 					chainHist = append(chainHist, e2)
 					if sc.Final != "" && (sc.Final != "adversary" || cur.w.led.newsAt == cur.w.clock) {
+						simExpectHash = cr.Hash
 						cr.Final = finalCheck(sc, chainHist)
+						simExpectHash = ""
 					}
 					rec.Chain = append(rec.Chain, cr)
 					if len(cr.Viol) > 0 || cur.w.mapOrderRisk() {
@@ -581,6 +585,24 @@ func expandState(sc *simScenario, req *expandReq) *expandResp {
 		s.close()
 	}
 	return resp
+}
+
+// simExpectHash is the canonical hash of the explored state a final check is
+// being run for ("" = unknown, e.g. when an artefact is replayed).
+var simExpectHash string
+
+// replayExpected replays hist for a final check: the state reached must be the
+// explored one (a history through a map-order dependent step can end in the
+// other outcome, where later events of the history do not exist).
+func replayExpected(sc *simScenario, hist []simEvent) (*simState, error) {
+	if simExpectHash == "" {
+		return replayHist(sc, hist)
+	}
+	s, err, ok := replayMatch(sc, hist, simExpectHash)
+	if err == nil && !ok {
+		err = fmt.Errorf("%w: explored state not reproduced in %d attempts", errSimHarness, simOrderRetries)
+	}
+	return s, err
 }
 
 // finalCheck is overridden by scenarios that evaluate a continuation from
